@@ -416,12 +416,14 @@ fn jinterp_parts(s: &str, slots: &[crate::lexer::InterpSlot]) -> String {
                         start, sloc.0, sloc.1, jexpr(&ast),
                     )),
                     Err(_) => parts.push(format!(
-                        "{{\"t\":\"badslot\",\"off\":{start}}}",
+                        "{{\"t\":\"badslot\",\"off\":{start},\"sloc\":[{},{}]}}",
+                        sloc.0, sloc.1,
                     )),
                 }
             },
             None => parts.push(format!(
-                "{{\"t\":\"badslot\",\"off\":{start}}}",
+                "{{\"t\":\"badslot\",\"off\":{start},\"sloc\":[{},{}]}}",
+                sloc.0, sloc.1,
             )),
         }
         last = *end;
